@@ -462,9 +462,11 @@ public_preserve_all = _public_preserve(skeletons.PRESERVE_TEMPLATES)
 OPTION_COMBOS = [(True, False, True), (True, True, True), (True, True, False), (False, True, True)]
 
 
-def plan(lib, tier, seed, quick_n, lengths_quick=(3,), lengths_thorough=(1, 3), combos_quick=None, extra=None, names='ABC',
+def plan(lib, tier, seed, quick_n, lengths_quick=(1, 3), lengths_thorough=(1, 3), combos_quick=None, extra=None, names='ABC',
          combos_thorough=None):
-    """[(extra_pre list)] - quick: a seeded rotation through the skeleton library; thorough: the whole library."""
+    """[(extra_pre list)] - quick: quick_n skeletons (seeded rotation; all if quick_n >= len(lib)), one name length and one
+    option combination each (both rotate with the seed; length 1 is where generated names A, B, ... can collide with the
+    program's own); thorough: the whole library x every length x every option combination."""
     import random
     n = len(lib)
     ks = list(range(n))
@@ -472,22 +474,22 @@ def plan(lib, tier, seed, quick_n, lengths_quick=(3,), lengths_thorough=(1, 3), 
         rnd = random.Random(seed)
         rnd.shuffle(ks)
         ks = sorted(ks[:quick_n])
-        lengths = lengths_quick
         combos = combos_quick or [OPTION_COMBOS[0], OPTION_COMBOS[1]]
     else:
-        lengths = lengths_thorough
         combos = combos_thorough or OPTION_COMBOS
     shards = []
     for i, k in enumerate(ks):
-        for L in lengths:
-            cs = combos if tier != 'quick' else [combos[i % len(combos)]]
-            for (rl, rg, hl) in cs:
-                pre = ['k == %d' % k, ' and '.join('len(%s) == %d' % (v, L) for v in names),
-                       ' and '.join('"." not in %s and "*" not in %s' % (v, v) for v in names),
-                       'rl == %s' % rl, 'rg == %s' % rg, 'hl == %s' % hl]
-                if extra:
-                    pre += extra
-                shards.append(pre)
+        if tier == 'quick':
+            todo = [(lengths_quick[(k + seed) % len(lengths_quick)], combos[(i + seed) % len(combos)])]
+        else:
+            todo = [(L, c) for L in lengths_thorough for c in combos]
+        for L, (rl, rg, hl) in todo:
+            pre = ['k == %d' % k, ' and '.join('len(%s) == %d' % (v, L) for v in names),
+                   ' and '.join('"." not in %s and "*" not in %s' % (v, v) for v in names),
+                   'rl == %s' % rl, 'rg == %s' % rg, 'hl == %s' % hl]
+            if extra:
+                pre += extra
+            shards.append(pre)
     return shards
 
 
